@@ -279,6 +279,11 @@ pub struct GenCfg {
     pub holds_of_10: usize,
     /// words used for code lines (must not contain delimiter characters where that matters)
     pub words: Vec<&'static str>,
+    /// an inline element may sit on a wrapper line of an unwrap-block (outside the C11 / C12 /
+    /// C15 spaces; inside the C01 / C02 / C03 / C14 spaces)
+    pub wrapper_tags: bool,
+    /// inline lead / trailing text may contain tabs
+    pub inline_tabs: bool,
 }
 
 pub const WORDS: [&str; 10] = [
@@ -312,6 +317,8 @@ impl GenCfg {
             max_items: 8,
             holds_of_10: 6,
             words: WORDS.to_vec(),
+            wrapper_tags: false,
+            inline_tabs: false,
         }
     }
 }
@@ -357,7 +364,12 @@ pub fn gen_elem(r: &mut Rng, cfg: &GenCfg, depth: usize, indent: usize, unwrap: 
         if shape == 0 {
             // zero lines between
         } else if shape == 1 {
-            children.push(Piece::Text(format!("\n{ind}{}", code_line(r, cfg))));
+            let line = if cfg.odd_wrappers && r.chance(1, 2) {
+                r.pick(&["", " ", "\t"]).to_string()
+            } else {
+                format!("{ind}{}", code_line(r, cfg))
+            };
+            children.push(Piece::Text(format!("\n{line}")));
         } else {
             let body_indent = indent + r.below(3);
             let (w1, w2) = if cfg.odd_wrappers && r.chance(1, 3) {
@@ -370,9 +382,23 @@ pub fn gen_elem(r: &mut Rng, cfg: &GenCfg, depth: usize, indent: usize, unwrap: 
                 (format!("{ind}if (cond) {{"), format!("{ind}}}"))
             };
             children.push(Piece::Text(format!("\n{w1}")));
+            if cfg.wrapper_tags && r.chance(1, 4) {
+                // inline element on the opening wrapper line
+                let mut e = gen_elem(r, cfg, cfg.max_depth, indent, false);
+                e.children = vec![Piece::Text(format!(" {} ", code_line(r, cfg)))];
+                children.push(Piece::Text(" ".into()));
+                children.push(Piece::Elem(e));
+            }
             let n = r.below(5);
             children.extend(gen_lines(r, cfg, depth + 1, body_indent, n));
             children.push(Piece::Text(format!("\n{w2}")));
+            if cfg.wrapper_tags && r.chance(1, 5) {
+                // inline element on the closing wrapper line
+                let mut e = gen_elem(r, cfg, cfg.max_depth, indent, false);
+                e.children = vec![Piece::Text(code_line(r, cfg))];
+                children.push(Piece::Text(" ".into()));
+                children.push(Piece::Elem(e));
+            }
         }
     } else {
         let n = r.below(4);
@@ -405,13 +431,18 @@ pub fn gen_lines(r: &mut Rng, cfg: &GenCfg, depth: usize, indent: usize, n: usiz
             5 if cfg.allow_inline && depth < cfg.max_depth => {
                 // inline element sharing a line with code
                 let lead = if r.chance(3, 4) {
-                    format!("{} ", code_line(r, cfg))
+                    if cfg.inline_tabs && r.chance(1, 3) {
+                        format!("{}\t{} ", code_line(r, cfg), code_line(r, cfg))
+                    } else {
+                        format!("{} ", code_line(r, cfg))
+                    }
                 } else {
                     String::new()
                 };
                 v.push(Piece::Text(format!("\n{ind}{lead}")));
                 let mut e = gen_elem(r, cfg, cfg.max_depth, indent, false);
-                e.children = match r.below(4) {
+                let shape = r.below(4);
+                e.children = match shape {
                     0 => vec![],
                     1 => vec![Piece::Text(code_line(r, cfg))],
                     2 => vec![Piece::Text(format!(
@@ -421,9 +452,17 @@ pub fn gen_lines(r: &mut Rng, cfg: &GenCfg, depth: usize, indent: usize, n: usiz
                     ))],
                     _ => vec![Piece::Text(format!(" {} ", code_line(r, cfg)))],
                 };
+                // a whole unwrap-block element on a single line must be left untouched (C11)
+                if cfg.allow_unwrap && shape != 2 && r.chance(1, 6) {
+                    e.unwrap = true;
+                }
                 v.push(Piece::Elem(e));
                 if r.chance(1, 2) {
-                    v.push(Piece::Text(format!(" {}", code_line(r, cfg))));
+                    if cfg.inline_tabs && r.chance(1, 2) {
+                        v.push(Piece::Text(format!("\t{}\t", code_line(r, cfg))));
+                    } else {
+                        v.push(Piece::Text(format!(" {}", code_line(r, cfg))));
+                    }
                 }
             }
             _ => {
